@@ -729,6 +729,22 @@ Print Assumptions kholaw_child_key_partial.
 Example kholaw_child_key_partial_ex : (NoEscapeCardano.KL (repeat 0%N 31 ++ [64%N] ++ repeat 0%N 32) + 2 ^ 227 <= 2 ^ 256)%N.
 Proof. vm_compute. discriminate. Qed.
 Print Assumptions kholaw_child_key_partial_ex.
+(* The derivator as the property demands it (Model/C14b.v kh_derivator_conformant: the child that does not fit 32 bytes is
+   discarded with Bip32KeyError; this is what fixes/C14-KHOLAW-OVERFLOW.diff makes the code do, and what the extracted
+   model of harness/props/C14.py runs): every private parent, every int, arbitrary HMAC -- and it is the code's
+   derivator wherever that one does not overflow *)
+Theorem kholaw_child_key_conformant_no_escape : forall (hmac512 : list N -> list N -> list N) (G : Type) gadd gmul gbase g_is_zero penc pdec n k i,
+  n_priv n = Some k ->
+  in_family (child_key hmac512 G gadd gmul gbase g_is_zero penc pdec (C14b.kh_derivator_conformant G gmul gbase g_is_zero penc) n i) = true.
+Proof. intros h G gadd gmul gbase z penc pdec n k i. exact (NoEscapeCardano.conf_child_key_family h G gadd gmul gbase z penc pdec n k i). Qed.
+Print Assumptions kholaw_child_key_conformant_no_escape.
+Theorem kholaw_new_left_conformant_agrees : forall zl kl, (zl8 zl + le_to_int kl < 2 ^ 256)%N ->
+  C14b.kh_new_left_conformant zl kl = kh_new_left zl kl.
+Proof. exact NoEscapeCardano.kh_new_left_conformant_agrees. Qed.
+Print Assumptions kholaw_new_left_conformant_agrees.
+Example kholaw_new_left_conformant_agrees_ex : (zl8 (repeat 255%N 32) + le_to_int (repeat 0%N 31 ++ [64%N]) < 2 ^ 256)%N.
+Proof. vm_compute. reflexivity. Qed.
+Print Assumptions kholaw_new_left_conformant_agrees_ex.
 (* The Byron-legacy derivator reduces mod l and adds byte-wise: every private parent, every int, arbitrary HMAC *)
 Theorem byron_legacy_child_key_no_escape : forall (hmac512 : list N -> list N -> list N) (G : Type) gadd gmul gbase g_is_zero penc pdec n k i,
   n_priv n = Some k ->
@@ -763,6 +779,22 @@ Proof.
   exact (NoEscapeCardano.ic_from_seed_and_path_str_family h pb G gadd gmul gbase z penc pdec H1 seed s H2 H3 H4).
 Qed.
 Print Assumptions icarus_from_seed_and_path_partial.
+(* ... with the derivator the property demands: paths of any length (Bip32KholawEd25519 / CardanoIcarusBip32 / Cip1852) *)
+Theorem kholaw_from_seed_and_path_conformant_no_escape : forall (hmac512 hmac256 : list N -> list N -> list N) pbkdf2 (G : Type)
+    gadd gmul gbase g_is_zero penc pdec fuel seed s,
+  (forall k m, length (hmac512 k m) = 64%nat) -> (forall p s r n, length (pbkdf2 p s r n) = N.to_nat n) ->
+  NoEscapeDeriv.in_family_or_fuel
+    (C14b.kh_from_seed_and_path_str hmac512 G gadd gmul gbase g_is_zero penc pdec (C14b.kh_derivator_conformant G gmul gbase g_is_zero penc)
+       (kh_from_seed hmac512 hmac256 G gmul gbase g_is_zero penc fuel) seed s) = true /\
+  NoEscapeDeriv.in_family_or_fuel
+    (C14b.kh_from_seed_and_path_str hmac512 G gadd gmul gbase g_is_zero penc pdec (C14b.kh_derivator_conformant G gmul gbase g_is_zero penc)
+       (ic_from_seed pbkdf2 G gmul gbase g_is_zero penc) seed s) = true.
+Proof.
+  intros h h2 pb G gadd gmul gbase z penc pdec fuel seed s H1 H2.
+  split; [exact (NoEscapeCardano.conf_kh_from_seed_and_path_str_fof h h2 G gadd gmul gbase z penc pdec fuel seed s H1)|
+          exact (NoEscapeCardano.conf_ic_from_seed_and_path_str_family h pb G gadd gmul gbase z penc pdec seed s H2)].
+Qed.
+Print Assumptions kholaw_from_seed_and_path_conformant_no_escape.
 (* the path premise on a non-trivial path *)
 Example kholaw_path_premise_ex : forall p, Bip32Path.parse [109; 47; 52; 52; 39; 47; 49]%N = Ok p ->
   (N.of_nat (length (Bip32Path.p_elems p)) <= 2 ^ 28)%N.
